@@ -12,7 +12,7 @@ use serde_json::json;
 pub fn prop() -> Prop {
   Prop {
     id: "C13",
-    rule: "case = (cold source: of / of_option / of_result / of_fn / start / from_iter / repeat / empty / never / throw / create script / defer(source) / from_future(poll-counting ready future); chain of 1..5 cloneable C03 operators whose closures count their calls; built once as CloneableBoxOp (or CloneableBoxOpThreads); 2..3 clones subscribed successively, optionally a further clone subscribed from inside the first subscription's first callback). \
+    rule: "case = (cold source: of / of_option / of_result / of_fn / start / from_iter / repeat / empty / never / throw / create script / defer(source) / from_future(poll-counting ready future); chain of 1..5 cloneable C03 operators whose closures count their calls; built once as CloneableBoxOp (or CloneableBoxOpThreads); 2..3 clones subscribed successively, optionally a further clone subscribed from inside the first subscription's first callback; one case in eight at scale: 20..79 successive subscriptions and / or a cold input of 100..600 items). \
            Oracle: after building, every counter (source closures, defer factories, future polls, map/filter/scan/tap closures) is 0; after k subscriptions the source closure / factory ran exactly k times and the future was polled k times; every subscription's notification sequence equals the reference interpreter's. Non-trivial: the chain contains an operator that keeps state (take, skip, last, scan, distinct, buffer, pairwise, default_if_empty, ...) and the source emits >= 1 item. Distinct by hash(case). \
            Part `overlap`: pipelines of depth <= 4 over every operator that has a cloneable form (the C03 catalogue, finalize, box_it, observe_on, delay, delay_subscription, subscribe_on, debounce, throttle, buffer_with_time, buffer_with_count_and_time, the eight two-input combinators) on cold sources and virtual-clock intervals, built once; 2..3 clones are subscribed at generated, overlapping virtual times and each is unsubscribed 12 ticks after its own start. Oracle (metamorphic, no model): every subscription's trace, with times relative to its own start, equals the trace of a single subscription of the same pipeline run alone in a fresh world; finalize callbacks ran once per subscription and finalize node. Non-trivial (overlap): two subscriptions are alive at the same time and the pipeline uses the scheduler or a stateful operator.",
     assumptions: &["the nested subscription is made on a *clone* of the pipeline (the form of re-entrancy the property names)"],
@@ -42,6 +42,13 @@ fn gen_src(c: &mut dyn Choices) -> Src {
   }
 }
 
+fn replace_chain_src(n: &Node, src: Src) -> Node {
+  match n {
+    Node::Un(op, tf, inner) => Node::Un(op.clone(), *tf, Box::new(replace_chain_src(inner, src))),
+    _ => Node::Src(src),
+  }
+}
+
 fn counted_sources(n: &Node) -> (usize, usize) {
   // (closure/factory calls per subscription, future polls per subscription)
   let (mut calls, mut polls) = (0, 0);
@@ -63,7 +70,35 @@ fn run_case(c: &mut dyn Choices, ctx: &Ctx) -> Outcome {
   for _ in 0..depth {
     node = Node::un(gen_un_c03(c, 3, 4), node);
   }
-  let case = Case { node, subs: 2 + c.pick(2), nested: c.pick(3) == 0, threads: c.pick(3) == 0 };
+  let mut case = Case { node, subs: 2 + c.pick(2), nested: c.pick(3) == 0, threads: c.pick(3) == 0 };
+  // (appended picks, recorded tapes keep their meaning) one case in eight at scale: many subscriptions of clones
+  // (20..79) and / or a long cold input (100..600 items over {0..3} or {0..999}, then complete / error / nothing)
+  if c.pick(8) == 7 {
+    let which = c.pick(3);
+    if which != 1 {
+      case.subs = 20 + c.pick(60);
+    }
+    if which != 0 {
+      let n = crate::ast::pick_size(c, 100, 200, &[330, 520, 600]);
+      let alpha = if c.flag() { 4 } else { 1000 };
+      let items = gen_long_items(c, n, alpha);
+      let term = match c.pick(3) {
+        0 => Some(Ev::C),
+        1 => Some(Ev::Er(E(1))),
+        _ => None,
+      };
+      let src = if term == Some(Ev::C) && c.flag() {
+        Src::FromIter(items)
+      } else {
+        let mut evs: Vec<(u8, Ev)> = items.into_iter().map(|v| (0u8, Ev::N(v))).collect();
+        if let Some(t) = term {
+          evs.push((1, t));
+        }
+        Src::Create(evs)
+      };
+      case.node = replace_chain_src(&case.node, src);
+    }
+  }
   let inputs = Inputs::default();
   let expected: Vec<Vec<Ev>> = {
     let mut v = vec![];
